@@ -158,79 +158,65 @@ func genAddrConsts(repo string) (string, error) {
 	if err != nil {
 		return "", err
 	}
-	get := func(name string) (*ast.FuncDecl, error) {
+	// A constant that cannot be read does not stop the run (the other properties share this
+	// program, and the correspondence check should still look for a failing input): it gets a
+	// neutral default, the problem is listed, and addr_consts_complete = false makes the
+	// theorems that rely on the constants fail to check.
+	var problems []string
+	note := func(err error) {
+		if err != nil {
+			problems = append(problems, err.Error())
+		}
+	}
+	get := func(name string) *ast.FuncDecl {
 		d := findFunc(f, name)
 		if d == nil {
-			return nil, fmt.Errorf("pkg/policy/address.go: function %s not found", name)
+			note(fmt.Errorf("pkg/policy/address.go: function %s not found", name))
+			return &ast.FuncDecl{Name: ast.NewIdent(name), Type: &ast.FuncType{}, Body: &ast.BlockStmt{}}
 		}
-		return d, nil
+		return d
 	}
-	pe, err := get("parseEmailAddress")
-	if err != nil {
-		return "", err
+	cmp := func(d *ast.FuncDecl, left string, op token.Token) int64 {
+		v, err := cmpLit(fset, d, left, op)
+		note(err)
+		return v
 	}
-	pm, err := get("parseMailboxName")
-	if err != nil {
-		return "", err
+	str1 := func(xs []string, what string) string {
+		v, err := one(xs, what)
+		note(err)
+		return v
 	}
-	vd, err := get("ValidateDomainPart")
-	if err != nil {
-		return "", err
-	}
-	cd, err := get("canonicalDomain")
-	if err != nil {
-		return "", err
-	}
+	pe := get("parseEmailAddress")
+	pm := get("parseMailboxName")
+	vd := get("ValidateDomainPart")
+	cd := get("canonicalDomain")
 	var b strings.Builder
 	b.WriteString(coqHeader("Character classes and limits of pkg/policy/address.go; read-side uses of the URL variable \"name\"."))
 	b.WriteString("Inductive name_flow := ViaMailboxForAddress | Verbatim.\n\n")
 
-	maxAddr, err := cmpLit(fset, pe, "len(address)", token.GTR)
-	if err != nil {
-		return "", err
-	}
-	maxLocal, err := cmpLit(fset, pe, "i", token.GTR)
-	if err != nil {
-		return "", err
-	}
-	peSpecials, err := one(callStrArg(pe, "strings", "IndexByte", 0), "parseEmailAddress strings.IndexByte literal")
-	if err != nil {
-		return "", err
-	}
-	pmSpecials, err := one(callStrArg(pm, "strings", "IndexByte", 0), "parseMailboxName strings.IndexByte literal")
-	if err != nil {
-		return "", err
-	}
-	pmSep, err := one(callStrArg(pm, "strings", "Index", 1), "parseMailboxName strings.Index literal")
-	if err != nil {
-		return "", err
-	}
+	maxAddr := cmp(pe, "len(address)", token.GTR)
+	maxLocal := cmp(pe, "i", token.GTR)
+	peSpecials := str1(callStrArg(pe, "strings", "IndexByte", 0), "parseEmailAddress strings.IndexByte literal")
+	pmSpecials := str1(callStrArg(pm, "strings", "IndexByte", 0), "parseMailboxName strings.IndexByte literal")
+	pmSep := str1(callStrArg(pm, "strings", "Index", 1), "parseMailboxName strings.Index literal")
 	if len(pmSep) != 1 {
-		return "", fmt.Errorf("parseMailboxName: extension separator %q is not one byte", pmSep)
+		note(fmt.Errorf("parseMailboxName: extension separator %q is not one byte", pmSep))
+		pmSep = "+"
 	}
-	maxDomain, err := cmpLit(fset, vd, "ln", token.GTR)
-	if err != nil {
-		return "", err
-	}
-	minBracket, err := cmpLit(fset, vd, "ln", token.GEQ)
-	if err != nil {
-		return "", err
-	}
-	maxLabel, err := cmpLit(fset, vd, "labelLen", token.GTR)
-	if err != nil {
-		return "", err
-	}
-	ipTag, err := one(callStrArg(vd, "strings", "HasPrefix", 1), "ValidateDomainPart strings.HasPrefix literal")
-	if err != nil {
-		return "", err
-	}
+	maxDomain := cmp(vd, "ln", token.GTR)
+	minBracket := cmp(vd, "ln", token.GEQ)
+	maxLabel := cmp(vd, "labelLen", token.GTR)
+	ipTag := str1(callStrArg(vd, "strings", "HasPrefix", 1), "ValidateDomainPart strings.HasPrefix literal")
 	sLits := assignLits(vd, "s")
 	if len(sLits) != 2 {
-		return "", fmt.Errorf("ValidateDomainPart: expected two literal assignments to s, found %d", len(sLits))
+		note(fmt.Errorf("ValidateDomainPart: expected two literal assignments to s, found %d", len(sLits)))
+		sLits = []int64{1, 6}
 	}
-	canonTag, err := one(callStrArg(cd, "strings", "HasPrefix", 1), "canonicalDomain strings.HasPrefix literal")
-	if err != nil {
-		return "", err
+	canonTag := str1(callStrArg(cd, "strings", "HasPrefix", 1), "canonicalDomain strings.HasPrefix literal")
+	cdInts := intLits(cd)
+	if len(cdInts) != 1 {
+		note(fmt.Errorf("canonicalDomain: expected exactly one integer literal (the slice start), found %d", len(cdInts)))
+		cdInts = []int64{int64(len(canonTag))}
 	}
 	fmt.Fprintf(&b, "(* parseEmailAddress *)\nDefinition max_address_len : N := %d.\nDefinition max_local_index : N := %d.\n", maxAddr, maxLocal)
 	fmt.Fprintf(&b, "Definition email_specials : list N := %s. (* %q *)\n\n", coqStr(peSpecials), peSpecials)
@@ -239,11 +225,12 @@ func genAddrConsts(repo string) (string, error) {
 	fmt.Fprintf(&b, "(* ValidateDomainPart *)\nDefinition max_domain_len : N := %d.\nDefinition min_bracket_len : N := %d.\nDefinition max_label_len : N := %d.\n", maxDomain, minBracket, maxLabel)
 	fmt.Fprintf(&b, "Definition ip_tag : list N := %s. (* %q *)\n", coqStr(ipTag), ipTag)
 	fmt.Fprintf(&b, "Definition ip_start_plain : nat := %d.\nDefinition ip_start_tagged : nat := %d.\n\n", sLits[0], sLits[1])
-	cdInts := intLits(cd)
-	if len(cdInts) != 1 {
-		return "", fmt.Errorf("canonicalDomain: expected exactly one integer literal (the slice start), found %d", len(cdInts))
-	}
 	fmt.Fprintf(&b, "(* canonicalDomain *)\nDefinition canon_tag : list N := %s. (* %q *)\nDefinition canon_skip : nat := %d.\n\n", coqStr(canonTag), canonTag, cdInts[0])
+	fmt.Fprintf(&b, "(* every constant above was found in the source *)\nDefinition addr_consts_complete : bool := %v.\n", len(problems) == 0)
+	for _, p := range problems {
+		fmt.Fprintf(&b, "(* NOT FOUND: %s *)\n", strings.ReplaceAll(strings.ReplaceAll(p, "*)", "* )"), "\"", "'"))
+	}
+	b.WriteString("\n")
 
 	// read side
 	var uses []nameUse
@@ -254,9 +241,7 @@ func genAddrConsts(repo string) (string, error) {
 		}
 		uses = append(uses, u...)
 	}
-	if len(uses) == 0 {
-		return "", fmt.Errorf("no use of Vars[\"name\"] found in pkg/rest, pkg/webui: the read side moved")
-	}
+	// an empty list (the read side moved) makes read_side_same_name fail to check
 	b.WriteString("(* every use of the URL variable \"name\" in pkg/rest and pkg/webui, and how the mailbox name is derived from it *)\n")
 	b.WriteString("Definition read_sites : list (list N * name_flow) :=\n  [")
 	for i, u := range uses {
